@@ -319,10 +319,10 @@ def _plans(tier, rng):
 
     out = []
     if tier == "quick":
-        out.append(("Net(2,3,3) x all trees x sizes{1,2}(<=4) x FULL option cross product",
+        out.append(("Net(2,3,3) x all trees x sizes{1,2}(<=3) x FULL option cross product",
                     ge2(scope.networks(2, 3, 3)), True,
-                    {"trees": "all", "sizes12": 4, "opts": "full"},
-                    "all 3108 networks; 1 tree; all-2 plus <=3 more assignments from {1,2}; 5 sorts x 3 orders x 2 x 3 options"))
+                    {"trees": "all", "sizes12": 3, "opts": "full"},
+                    "all 3108 networks; 1 tree; all-2 plus <=2 more assignments from {1,2}; 5 sorts x 3 orders x 2 x 3 options"))
         out.append(("Net(3,3,2) x all trees x sizes{1,2}(<=2)+{2,3}(1) x rotated options",
                     ge2(scope.networks(3, 3, 2)), True,
                     {"trees": "all", "sizes12": 2, "sizes23": 1, "opts": 5},
